@@ -133,6 +133,22 @@ def run_harness(ctx, args, stdin=None, timeout=600, env=None, check=True):
     return r
 
 
+def run_harness_phase(ctx, args, sig, what, timeout=600, env=None):
+    """A harness phase whose process the library may kill (unrecovered panic in a goroutine, fatal runtime error such as
+    concurrent map writes): a death inside library frames is a violation with the given signature, any other failure is a
+    broken check.  Returns the parsed JSON report, or None when the process died in the library."""
+    r = run_harness(ctx, args, timeout=timeout, env=env, check=False)
+    if r.returncode == 0:
+        return json.loads(r.stdout.strip().splitlines()[-1])
+    err = r.stderr
+    died_in_library = ("fatal error:" in err or "panic:" in err) and "github.com/xelaj/mtproto" in err.replace("github.com/xelaj/mtproto/verifharness", "")
+    if died_in_library:
+        first = next((l for l in err.splitlines() if l.startswith("fatal error:") or l.startswith("panic:")), err[:200])
+        ctx.disagreement(sig, "%s: the process died: %s" % (what, first), {"phase": what, "stderr": err[:3000]})
+        return None
+    raise Broken("harness %s failed rc=%d:\n%s\n%s" % (args, r.returncode, r.stdout[-2000:], err[-4000:]))
+
+
 # ------------------------------------------------------------------ TLC
 class TlcResult:
     def __init__(self):
